@@ -625,6 +625,16 @@ def source_tags(net):
                         tags.add("npu-box-batch>1")
                 elif any(batch4(net.tensors[t].shape) > 1 or len(net.tensors[t].shape) < 4 for t in o.outputs):
                     tags.add("npu-box-batch>1")
+        # round 5 (rank sweep): legal attribute values three lowerings mishandle (repairs C13-50, C13-51, C01-47 pending)
+        if o.kind == "UNPACK" and int(opts.get("Axis", 0)) < 0:
+            tags.add("unpack-negative-axis")
+        if o.kind == "SLICE" and len(o.inputs) > 2 and net.tensors[o.inputs[2]].data is not None and \
+                (np.asarray(net.tensors[o.inputs[2]].data).reshape(-1) == -1).any():
+            tags.add("slice-size-minus-one")
+        if o.kind == "FULLY_CONNECTED" and opts.get("KeepNumDims"):
+            osh = net.tensors[o.outputs[0]].shape
+            if len(osh) == 4 and osh[0] > 1:
+                tags.add("fc-keep-num-dims-rank4-batch>1")
         if o.kind == "STRIDED_SLICE" and opts.get("NewAxisMask", 0):
             rank_in = len(net.tensors[o.inputs[0]].shape)
             if opts["NewAxisMask"] & ((1 << rank_in) - 1):
